@@ -109,11 +109,19 @@ class BGPLS(NLRI):
         # RFC 7911 ADD-PATH is possible for BGP-LS but not yet implemented
         # TODO: implement addpath support when negotiated.addpath.send(AFI.bgpls, self.safi)
         # Wire format: [type(2)][length(2)][payload] - _packed includes header
+        route_d = getattr(self, 'route_d', None)
+        if self.safi == SAFI.bgp_ls_vpn and route_d is not None:
+            # the decoder took the route distinguisher out of the wire format: it goes back between header and payload
+            code, length = unpack('!HH', bytes(self._packed[:4]))
+            rd = bytes(route_d.pack_rd())
+            return pack('!HH', code, length + len(rd)) + rd + bytes(self._packed[4:])
         return self._packed
 
     def index(self) -> bytes:
-        # Wire format: [family][type(2)][length(2)][payload] - _packed includes header
-        return bytes(Family.index(self)) + self._packed
+        # Wire format: [family][type(2)][length(2)][rd(8) for bgp-ls-vpn][payload]
+        from exabgp.bgp.message.open.capability.negotiated import Negotiated
+
+        return bytes(Family.index(self)) + bytes(self.pack_nlri(Negotiated.UNSET))
 
     @classmethod
     def unpack_bgpls_nlri(cls, data: Buffer, rd: 'RouteDistinguisher') -> 'BGPLS':
@@ -265,6 +273,8 @@ class BGPLS(NLRI):
             klass = GenericBGPLS(code, wire_format)
 
         klass.addpath = addpath
+        # every BGP-LS class builds itself as bgp-ls/bgp-ls: the route belongs to the family it was received in
+        klass._safi = SAFI.from_int(safi)
 
         # the descriptors parse lazily, so a sub-tlv this decoder cannot read used to be
         # accepted here and fail later in the API writer calling json(): a raw exception
